@@ -195,6 +195,21 @@ fn main() {
             }
             0
         }
+        "leaktest" => {
+            let bytes = std::fs::read(&args[2]).expect("read");
+            let _ = air::to_human_readable_data(bytes.clone());
+            let a = aquaverif::isolate::live_now();
+            for _ in 0..1000 {
+                let _ = air::to_human_readable_data(bytes.clone());
+            }
+            let b = aquaverif::isolate::live_now();
+            println!("live before {} after {} => {} bytes per run", a, b, (b as f64 - a as f64) / 1000.0);
+            match air::to_human_readable_data(bytes.clone()) {
+                Ok(t) => println!("{}", &t[..t.len().min(3000)]),
+                Err(e) => println!("error: {}", e),
+            }
+            0
+        }
         "strace" => {
             // replay a stream scenario case (C11/C13) and print every run
             let text = std::fs::read_to_string(&args[2]).expect("read");
